@@ -303,6 +303,27 @@ func c04Run(c *core.Ctx, idx int) {
 		})
 		c.Count("trees.with-late-no-nesting-or-zero-valued-operators")
 	}
+	if r.Chance(1, 60) {
+		// very many Conditions in one stack, followed by further nested elements
+		var stacks []*TNode
+		tree.Walk(func(n *TNode) {
+			if n.T == "stack" && n.Cap == 0 {
+				stacks = append(stacks, n)
+			}
+		})
+		if len(stacks) > 0 {
+			w := stacks[r.Intn(len(stacks))]
+			tail := w.Kids
+			w.Kids = nil
+			for i, n := 0, r.Range(130, 220); i < n; i++ {
+				w.Kids = append(w.Kids, &TNode{T: "cond", Kw: fmt.Sprintf("k%d", i), Op: &OpDesc{Code: 1 + i%6}, Expr: &TNode{T: "leaf", Leaf: &LeafDesc{Tag: "int", I: int64(i)}}})
+			}
+			w.Kids = append(w.Kids, tail...)
+			w.Kids = append(w.Kids, &TNode{T: "stack", Kind: "OR", Kids: []*TNode{{T: "leaf", Leaf: &LeafDesc{Tag: "str", S: "after-many"}}}},
+				&TNode{T: "cond", Kw: "last", Op: &OpDesc{Code: 2}, Expr: &TNode{T: "stack", Kind: "LIST", Kids: []*TNode{{T: "leaf", Leaf: &LeafDesc{Tag: "str", S: "z"}}}}})
+			c.Count("trees.with-very-many-conditions")
+		}
+	}
 	if r.Chance(1, 8) {
 		// Conditions assembled piecemeal that never received an operator
 		tree.Walk(func(n *TNode) {
@@ -382,6 +403,25 @@ func c04Run(c *core.Ctx, idx int) {
 			c.Count("isequal-checked")
 		}
 		c.Count("round-trips")
+		// the reconstruction is the caller's: writing into its (empty) nested stacks is nobody else's business - a later
+		// reconstruction in this process must not find what is pushed here
+		var pollute func(s stackage.Stack, d int)
+		pollute = func(s stackage.Stack, d int) {
+			for i := 0; i < s.Len() && d < 6; i++ {
+				v, _ := s.Index(i)
+				if cd, ok := AsCond(v); ok && cd.IsInit() {
+					v = cd.Expression()
+				}
+				if ns, ok := AsStack(v); ok && ns.IsInit() {
+					if ns.Len() == 0 {
+						ns.Push("written into a reconstruction")
+					} else {
+						pollute(ns, d+1)
+					}
+				}
+			}
+		}
+		pollute(R, 0)
 	}
 	// second phase: write to a stack somewhere INSIDE the original tree (through its own handle), then unmarshal the
 	// root again - the answer must follow the content, whatever was computed for the first answer
